@@ -121,7 +121,8 @@ def cmp_rows(exp, got, skip=()):
     return bad
 
 
-def build_case(cid, rng, schema):
+def build_case(cid, rng, schema, first_id=None, fillers=0):
+    """first_id: the id counters start there (a long-lived library); fillers: that many other track and playlist rows exist first."""
     u = {"i": set(), "d": set(), "s": set(), "t": set()}
     r1 = gen_row(rng, u, 0.1)
     r2 = gen_row(rng, u, 0.3)
@@ -134,6 +135,16 @@ def build_case(cid, rng, schema):
            {"op": "trk_add", "row": r1, "bind": "1"}, {"op": "trk_get", "id": "$1"},
            {"op": "trk_add", "row": r2, "bind": "2"}, {"op": "trk_get", "id": "$2"}]
     plan = [("lib",), ("info",), ("add", 1, r1), ("get_after_add", 1), ("add", 2, r2), ("get_after_add", 2)]
+    pre = []
+    if first_id is not None:
+        from .. import gen_hist as GH
+        pre += GH.first_id_prelude(schema, first_id)
+    for j in range(fillers):
+        pre.append({"op": "trk_add", "row": gen_row(rng, u, 0.5)})
+        pre.append({"op": "pl_add", "row": {"title": GS.hx("Filler %d" % j), "parent_list_id": 0, "is_persisted": True, "next_list_id": 0,
+                                            "last_edit_time": rtime(rng, u["t"]), "is_explicitly_exported": False}})
+    ops[2:2] = pre
+    plan[2:2] = [("pre",)] * len(pre)
     # per-column getters of row 1
     for c in ALL_COLS:
         ops.append({"op": "trk_get_col", "id": "$1", "col": c})
@@ -464,8 +475,17 @@ def run(ctx):
     cases = []
     n = 0
     for schema in V2_SCHEMAS:
-        for _ in range(per):
-            cases.append(build_case("r%d" % n, ctx.rng, schema))
+        for k in range(per):
+            # one case in five works in a library shaped like a long-lived one: ids around 2^31 / 2^32 / 2^53 and a dozen other rows
+            first, fill = None, 0
+            if k % 5 == 3:
+                from .. import gen_hist as GH
+                first = GH.FIRST_IDS[(k // 5) % len(GH.FIRST_IDS)]
+                ctx.bump_in("cases_with_first_id", str(first))
+            if k % 5 in (3, 4):
+                fill = 12
+                ctx.bump("cases_with_filler_rows")
+            cases.append(build_case("r%d" % n, ctx.rng, schema, first, fill))
             n += 1
     r1 = cases[0]["_rows"][0]
     ctx.sample({"schema": cases[0]["schema"], "row": {k: (str(v)[:50]) for k, v in list(r1.items())[:14]}})
